@@ -1,13 +1,123 @@
-(* C04 -- property theorems only: statement + exact + Print Assumptions. *)
+(* C04 -- property theorems only: statement + exact + Print Assumptions.
+   The specification model (model/T81Spec.v) is a transcription of ITU-T T.81; these
+   theorems validate it as an oracle: its writer, parser and decoder are mutually
+   consistent for ALL streams / tables / block sequences (no size bound). *)
 From Coq Require Import List ZArith Bool.
-From LJT Require Import model.T81Spec proofs.T81StuffProofs.
+From LJT Require Import model.T81Spec proofs.T81StuffProofs proofs.T81ParseProofs proofs.T81LenProofs
+  proofs.T81BlockProofs proofs.T81ScanProofs proofs.T81HuffProofs proofs.T81WriterProofs proofs.T81Examples.
 Import ListNotations.
 Local Open Scope Z_scope.
 
-(* B.1.1.5: for every byte list, unstuffing the stuffed data gives the data back, the
-   stuffed data contains no marker, and reading stops exactly at the next marker *)
+(* (1a) writer_sound, marker/segment layer: every valid stream -- any number and order of
+   segments, any payload sizes, any number of fill bytes before any marker, any number of
+   restart intervals -- is accepted by the strict parser and gives back the same stream *)
+Theorem C04_parse_emit : forall s, stream_ok s = true -> t81_parse (emit_stream s) = Some s.
+Proof. exact t81_parse_emit. Qed.
+Print Assumptions C04_parse_emit.
+
+(* (1b) writer_sound, both layers: for every choice of items and every image with 16-bit
+   coefficients, a stream the writer produces that passes the validity check parses to the
+   writer's segment list and decodes to the blocks the writer recorded as written
+   (the Huffman tables are the concrete Annex C tables given in the DHT items) *)
+Theorem C04_writer_sound : forall ch im s bytes,
+  im_ok im -> layout ch im = Some s -> stream_ok s = true -> t81_emit ch im = Some bytes ->
+  t81_parse bytes = Some s /\ t81_decode s = written ch im.
+Proof. exact writer_sound. Qed.
+Print Assumptions C04_writer_sound.
+
+(* full clause (not proved): `written` equals the real blocks of the image arrays; needs
+   uniqueness/completeness of the A.2.3/A.2.4 block positions; covered by the Examples below
+   and by the correspondence in both directions *)
+Definition C04_writer_sound_full : Prop := forall ch im s,
+  im_ok im -> layout ch im = Some s -> stream_ok s = true ->
+  exists arrays, t81_decode s = Some arrays /\
+    forall i wb hb bl r c, nth_error arrays i = Some (wb, hb, bl) -> 0 <= r < hb -> 0 <= c < wb ->
+      exists pw, nth (Z.to_nat (r * wb + c)) bl [] =
+                 to_natural (to_zigzag (nth (Z.to_nat (r * pw + c)) (nth i (im_coefs im) []) [])).
+
+(* (2) B.1.1.5 byte stuffing, all byte lists *)
 Theorem C04_stuffing : forall d,
   read_ecs (stuff d) = (d, []) /\ no_marker (stuff d) = true /\
   (forall r, marker_ahead r -> read_ecs (stuff d ++ r) = (d, r)).
 Proof. exact stuffing_all. Qed.
 Print Assumptions C04_stuffing.
+
+(* (3) restart cadence: the writer numbers the RSTm 0,1,..,7,0,..; the parser accepts exactly
+   that sequence (any number of intervals, any fill) and rejects any other number *)
+Theorem C04_restart_accept : forall rest k fuel f c t,
+  (length rest < fuel)%nat -> c <> 0 -> c <> 255 -> not_rst c ->
+  read_rsts fuel k (emit_rsts k rest ++ marker f c ++ t) = Some (rest, marker f c ++ t).
+Proof. exact read_rsts_ok. Qed.
+Print Assumptions C04_restart_accept.
+
+Theorem C04_restart_reject : forall fuel k f m t, 0 <= m < 8 -> m <> k mod 8 ->
+  read_rsts (S fuel) k (marker f (M_RST0 + m) ++ t) = None.
+Proof. exact read_rsts_wrong_number. Qed.
+Print Assumptions C04_restart_reject.
+
+Theorem C04_restart_numbers : forall rest k i, (i < length rest)%nat ->
+  nth i (rst_markers_of k rest) 0 = M_RST0 + (k + Z.of_nat i) mod 8.
+Proof. exact rst_markers_cyclic. Qed.
+Print Assumptions C04_restart_numbers.
+
+(* (4) F.2.2.3 DECODE with MAXCODE/MINCODE/VALPTR from Annex C codes: for every table
+   specification with non-negative counts whose codes fit and are not all ones, DECODE
+   returns the symbol of every code word and consumes exactly its bits *)
+Theorem C04_decode_procedure : forall counts vals, table_ok counts = true ->
+  forall sym bits r, hc_enc (mk_coder counts vals) sym = Some bits ->
+                     hc_dec (mk_coder counts vals) (bits ++ r) = Some (sym, r).
+Proof. exact mk_coder_ok. Qed.
+Print Assumptions C04_decode_procedure.
+
+(* (1c) entropy layer for ABSTRACT prefix codes: one block, and a whole scan with any
+   restart interval (also one that does not divide the number of blocks) *)
+Theorem C04_block_codec : forall dcE acE dcD acD, coder_ok dcE dcD -> coder_ok acE acD ->
+  forall pred zz bits rest, block_ok zz -> enc_block dcE acE pred zz = Some bits ->
+  dec_block dcD acD pred (bits ++ rest) = Some (zz, rest).
+Proof. exact dec_enc_block. Qed.
+Print Assumptions C04_block_codec.
+
+Theorem C04_scan_codec : forall cs n per blocks ds, coders_ok cs ->
+  Forall (fun b => block_ok (snd b)) blocks -> enc_scan cs n per blocks = Some ds ->
+  dec_scan cs n per (map fst blocks) ds = Some blocks.
+Proof. exact dec_enc_scan. Qed.
+Print Assumptions C04_scan_codec.
+
+(* F.1.2.3: packing pads the last byte with 1-bits only, fewer than 8 *)
+Theorem C04_padding : forall bs, exists pad,
+  unpack (pack bs) = bs ++ pad /\ (length pad < 8)%nat /\ forallb (fun b => b) pad = true.
+Proof. exact unpack_pack. Qed.
+Print Assumptions C04_padding.
+
+(* (5) length fields Lq, Lh, Lf, Ls, Lr, La for every number of tables / components *)
+Theorem C04_length_fields :
+  (forall tabs, forallb qtab_ok tabs = true ->
+     len_field (SegDQT tabs) = 2 + sumZ (map (fun t : qtab => let '(pq, _, _) := t in 65 + 64 * pq) tabs)) /\
+  (forall tabs, forallb htab_ok tabs = true ->
+     len_field (SegDHT tabs) = 2 + sumZ (map (fun t : htab => let '(_, _, counts, _) := t in 17 + sumZ counts) tabs)) /\
+  (forall n p y x comps, len_field (SegSOF n p y x comps) = 8 + 3 * lenZ comps) /\
+  (forall comps ss se ah al d r, len_field (SegSOS comps ss se ah al d r) = 6 + 2 * lenZ comps) /\
+  (forall ri, len_field (SegDRI ri) = 4) /\
+  (forall tabs, len_field (SegDAC tabs) = 2 + 2 * lenZ tabs) /\
+  (forall s, seg_ok s = true -> 2 <= len_field s <= 65535).
+Proof. exact length_fields. Qed.
+Print Assumptions C04_length_fields.
+
+(* non-vacuity: the hypotheses of (1b) and (4) hold for concrete streams, which parse and
+   decode to the coefficients written (8x8 grey; 17x9 two components 2x1/1x1, SOF1, 16-bit
+   DQT at destination 3, Huffman destinations 3/2, DRI after SOF with Ri = 1, fill bytes) *)
+Example C04_example_grey :
+  exists bytes s, t81_emit ex1_ch ex1_im = Some bytes /\ layout ex1_ch ex1_im = Some s /\ stream_ok s = true /\
+                  t81_parse bytes = Some s /\ t81_decode s = Some [(1, 1, [ex1_blk])] /\ im_ok ex1_im /\
+                  length bytes = 145%nat.
+Proof. exact ex1_runs. Qed.
+
+Example C04_example_two_components :
+  exists bytes s, t81_emit ex2_ch ex2_im = Some bytes /\ layout ex2_ch ex2_im = Some s /\ stream_ok s = true /\
+                  t81_parse bytes = Some s /\
+                  t81_decode s = Some [(3, 2, [ex2_b 1; ex2_b 2; ex2_b 3; ex2_b 5; ex2_b 6; ex2_b 7]);
+                                       (2, 2, [ex2_b 7; ex2_b (-7); ex2_b 3; ex2_b 0])] /\ im_ok ex2_im.
+Proof. exact ex2_runs. Qed.
+
+Example C04_example_table_ok : table_ok [0; 3; 1; 0; 0; 0; 0; 0; 0; 0; 0; 0; 0; 0; 0; 0] = true.
+Proof. exact ex_tables_ok. Qed.
